@@ -48,6 +48,14 @@ CORPUS += [
     ('cond-lvalue-ptr', 'f', 'int f(int a, int *p) { *(a ? &p[0] : &p[1]) = a ? (a > 5 ? 3 : 4) : 9; return p[0] * 16 + p[1]; }', [('int', 'a'), ('int *', 'p', 2)], 'int',
      'i_p[0] > -100 && i_p[0] < 100 && i_p[1] > -100 && i_p[1] < 100'),
 ]
+# conversion of the returned value to the function's return type
+CORPUS += [
+    ('return-uchar', 'f', 'unsigned char f(int a) { return a; }', [('int', 'a')], 'unsigned char', ''),
+    ('return-float', 'f', 'float f(double d, int i) { if (i) return i; return d; }', [('double', 'd'), ('int', 'i')], 'float', 'in_d == in_d && in_d > -1e30 && in_d < 1e30'),
+    ('return-bool', 'f', '_Bool f(long a, double d) { if (a & 1) return d; return a; }', [('long', 'a'), ('double', 'd')], '_Bool', 'in_d == in_d'),
+    ('return-widen', 'f', 'long f(int a, unsigned b) { if (a > 0) return b; return a; }', [('int', 'a'), ('unsigned', 'b')], 'long', ''),
+    ('return-short', 'f', 'short f(unsigned a, long b) { if (b) return b; return a * 3; }', [('unsigned', 'a'), ('long', 'b')], 'short', ''),
+]
 # calls: (name, function, source, params, return type, precondition, prototypes seen by cproc, callee specifications for the harness)
 CORPUS_CALLS = [
     ('call-basic', 'f', 'long f(int a, unsigned char b) { long r = g(a + 1, b); r += g(b, a); return r * 2; }', [('int', 'a'), ('unsigned char', 'b')], 'long',
@@ -64,6 +72,15 @@ CORPUS_CALLS = [
      'int g(int, long);', [dict(name='g', ret='int', params=['int', 'long'])]),
     ('call-result-conv', 'f', 'double f(int a) { unsigned char c = k(a); float x = k(a + 1); return c + x; }', [('int', 'a')], 'double', 'in_a > -100000 && in_a < 100000',
      'long k(int);', [dict(name='k', ret='long', params=['int'])]),
+    ('call-variadic-promote', 'f', 'int f(signed char c, float x, unsigned short h) { return v(3, c, x, h); }', [('signed char', 'c'), ('float', 'x'), ('unsigned short', 'h')], 'int', 'in_x == in_x',
+     'int v(int, ...);', [dict(name='v', ret='int', params=['int'], extra=['int', 'double', 'int'])],
+     # the reference side spells the default argument promotions out (CBMC hands sub-int variadic arguments to a user-defined callee unpromoted)
+     'int f(signed char c, float x, unsigned short h) { return v(3, (int)c, (double)x, (int)h); }'),
+    ('call-variadic-named', 'f', 'long f(int a, float x, unsigned char c) { return w(a, x, 0, c, a); }', [('int', 'a'), ('float', 'x'), ('unsigned char', 'c')], 'long', 'in_x == in_x',
+     'long w(long, double, int *, ...);', [dict(name='w', ret='long', params=['long', 'double', 'int *'], extra=['int', 'int'], body='rv_ += (a2 == 0);')],
+     'long f(int a, float x, unsigned char c) { return w(a, x, 0, (int)c, a); }'),
+    ('call-arg-exprs', 'f', 'long f(int a, int *p) { return g(p[0] ? a : -a, (long)p[1] << 3) + g(a++, a); }', [('int', 'a'), ('int *', 'p', 2)], 'long', 'in_a > -100000 && in_a < 100000',
+     'long g(int, long);', [dict(name='g', ret='long', params=['int', 'long'])]),
     ('call-nested', 'f', 'int f(int a) { return g(g(a, 1) + 1, a); }', [('int', 'a')], 'int', '',
      'int g(int, long);', [dict(name='g', ret='int', params=['int', 'long'])]),
 ]
@@ -115,9 +132,11 @@ def corpus_instances(tier, fam='tv'):
     for nm, fn, src, params, ret, pre in CORPUS:
         opt = nm in heavy and tier == 'quick'
         L.append(tvlib.tv_inst('%s.%s' % (fam, nm), fn, src, params, ret, fam, pre=pre, timeout=(120 if opt else 600) if tier == 'quick' else 3600, optional=nm in heavy))
-    for nm, fn, src, params, ret, pre, protos, callees in CORPUS_CALLS:
+    for ent in CORPUS_CALLS:
+        nm, fn, src, params, ret, pre, protos, callees = ent[:8]
+        refsrc = ent[8] if len(ent) > 8 else src
         prelude, disp = tvlib.callee_code(callees)
-        L.append(tvlib.tv_inst('%s.%s' % (fam, nm), fn, src, params, ret, fam, pre=pre, callees=disp, prelude=prelude, toksrc=protos + '\n' + src, timeout=600 if tier == 'quick' else 3600))
+        L.append(tvlib.tv_inst('%s.%s' % (fam, nm), fn, refsrc, params, ret, fam, pre=pre, callees=disp, prelude=prelude, toksrc=protos + '\n' + src, timeout=600 if tier == 'quick' else 3600))
     for nm, fn, src, params, ret, pre, protos, callees in CORPUS_CALLSTRUCT:
         prelude, disp = tvlib.callee_code(callees)
         L.append(tvlib.tv_inst('%s.%s' % (fam, nm), fn, src, params, ret, fam, pre=pre, callees=disp, prelude=CALLSTRUCT_PRELUDE + prelude,
